@@ -29,6 +29,9 @@ inductive Cmd where
   | dfr (m : Mutex)           -- defer m.Unlock(): no effect until the function returns
   | acc (occ : Nat)           -- an access site (occurrence id = `Access.site` of its table rows)
   | call (f : Nat)            -- static call of skeleton number f
+  | icall (f : Nat)           -- candidate target of an interface call: runs like `call f`, but is ASSUMED not to
+                              --   change the caller's lock state (a dynamically dispatched method neither returns
+                              --   holding a new lock of ours nor releases one the caller holds)
   | seq (a b : Cmd)
   | alt (a b : Cmd)           -- if / switch / select: either branch
   | loop (a : Cmd)            -- for / range: any number of iterations
@@ -96,6 +99,7 @@ inductive Run (env : Nat → Option Cmd) : Cmd → LS → List (Nat × LS) → L
   | spawn {a h o h' t} : Run env a [] o h' t → Run env (.spawn a) h o h .normal
   | call {f body h o h₁ t} : env f = some body → Run env body h o h₁ t →
       Run env (.call f) h o (dropAll (dfrs body) h₁) .normal
+  | icall {f body h o h₁ t} : env f = some body → Run env body h o h₁ t → Run env (.icall f) h o h .normal
 
 /-! ## the analysis -/
 
@@ -131,6 +135,7 @@ def an (relOf : Nat → List Mutex) : Cmd → LS → Res
   | .ret, _ => {}
   | .jump n, L => { exits := List.replicate n none ++ [some L] }
   | .call f, L => { calls := [(f, L)], out := some (dropAll (relOf f) L) }
+  | .icall f, L => { calls := [(f, L)], out := some L }
   | .spawn a, L =>
       let r := an relOf a []
       { rows := r.rows, calls := r.calls, out := some L }
